@@ -33,12 +33,17 @@ Definition row_of (has_storage : bool) (ms : list met) (storage : list nat) (mis
       (match imeta with Some i => nth_error ms i | None => None end) tags
   end.
 
+Inductive wire := W (count sum sf wcount wsum : Q).
+
 (* CQuota: one call of the aggregator's calcHostMetricBudgets (quota-mode sampler, SampleKeys off, real
    roundSampleFactor with an unseeded rng): rows = (metric, host) reports, obs = (row id, budget handed back, 0 = none) *)
 Inductive case :=
 | CRun (c : cfg) (budget : Z) (has_storage : bool) (ms : list met) (storage : list nat) (rows : list crow)
        (m : mode) (perms : list (list Z)) (obs : list obs1)
-| CQuota (nss groups : bool) (budget : Z) (miss_nsw miss_gw : Z) (ms : list met) (rows : list crow) (obs : list (Z * Z)).
+| CQuota (nss groups : bool) (budget : Z) (miss_nsw miss_gw : Z) (ms : list met) (rows : list crow) (obs : list (Z * Z))
+(* CWire: the agent path (Shard.sampleBucket): for every kept row what keepF put on the wire —
+   W raw_count raw_sum SF wire_count wire_sum (wire_sum as the receiver restores it) *)
+| CWire (rows : list wire).
 
 Fixpoint nodupb (l : list Z) : bool :=
   match l with [] => true | x :: t => negb (existsb (Z.eqb x) t) && nodupb t end.
@@ -69,6 +74,9 @@ Definition selu_of (ds : list (Z * Q)) : Z -> Q := fun id =>
 Definition two52 : Q := inject_Z (2 ^ 52).
 (* float64: SF = fl(sfNum/sfDenom) (one correctly rounded division; the doubling is exact) *)
 Definition sf_close (m o : Q) : bool := Qle_bool (Qabs (o - m) * two52) (Qabs m).
+(* "a kept row carries the inverse of its keep probability": the transferred count and sum are the raw ones times SF *)
+Definition wire_ok (w : wire) : bool :=
+  match w with W cnt sm sf wc ws => sf_close (cnt * sf) wc && sf_close (sm * sf) ws end.
 
 Definition out_matches (outs : list out) (ob : Z * bool * Q * Z) : bool :=
   let '(id, k, sf, qt) := ob in
@@ -110,6 +118,7 @@ Definition quota_matches (rows : list row) (outs : list out) (ob : Z * Z) : bool
 
 Definition ok_variant (f : bool) (cs : case) : bool :=
   match cs with
+  | CWire ws => forallb wire_ok ws
   | CQuota nss groups budget mnsw mgw ms crows obs =>
     let rows := map (row_of true ms (seq 0 (length ms)) (missing_met mnsw mgw)) crows in
     let c := mkcfg false false false false nss groups false true f in
@@ -129,6 +138,7 @@ Definition ok_variant (f : bool) (cs : case) : bool :=
 Definition ok (cs : case) : bool :=
   match cs with
   | CQuota _ _ _ _ _ _ _ _ => ok_variant false cs   (* sampleQuota has no repaired variant *)
+  | CWire _ => ok_variant false cs
   | _ => ok_variant false cs || ok_variant true cs
   end.
 
